@@ -65,7 +65,7 @@ func init() {
 		NonTrivial: func(o *ConcOutcome) bool { return o.Probes["loader-overlap-any"] > 0 || o.Probes["load-waiters"] > 0 },
 	})
 	// C09: load vs newer write on one or two keys.
-	c9 := zeroExcept(map[string]int{"load": 22, "bulkget": 6, "bulkrefresh": 3, "refresh": 6, "set": 12, "setifabsent": 4, "compute": 6, "computeifabsent": 3, "computeifpresent": 3, "invalidate": 10, "get": 8, "advance": 2})
+	c9 := zeroExcept(map[string]int{"load": 22, "bulkget": 6, "bulkrefresh": 3, "refresh": 6, "set": 12, "setifabsent": 4, "compute": 6, "computeifabsent": 3, "computeifpresent": 3, "invalidate": 10, "get": 8, "advance": 2, "invalidateall": 4})
 	concSpec("C09", &ConcOpts{
 		Profile: Profile{Prop: "C09", NoExp: true, Keys: [2]int{1, 2}},
 		OpW:     c9, Tasks: [2]int{2, 3}, OpsPer: [2]int{2, 8}, Prefill: [2]int{0, 2},
